@@ -156,7 +156,7 @@ Lemma added_tele sh o r0 c0 :
   + b2n (has_cell sh r0 c0) = b2n (has_cell (shape_step sh o) r0 c0).
 Proof.
   intros W. rewrite !has_cell_rowq.
-  destruct o as [|r|r| |n| |n|ow tm g cb]; cbn [cells_added shape_step].
+  destruct o as [|r|r| |n| |n|ow tm g cb|r']; cbn [cells_added shape_step].
   - rw_push sh (mkSrow (Some 0) false). norm.
     destruct (Nat.eqb_spec r0 (length (sh_rows sh))) as [->|_]; [|reflexivity].
     rewrite rowq_none by (apply nth_error_None; lia). bool_lia.
@@ -181,6 +181,7 @@ Proof.
     destruct (Nat.eqb_spec r0 (length (sh_rows sh))) as [->|_]; norm; [|reflexivity].
     rewrite rowq_none by (apply nth_error_None; lia). bool_lia.
   - reflexivity.
+  - reflexivity.
 Qed.
 
 Lemma joined_tele sh o r0 :
@@ -189,7 +190,7 @@ Lemma joined_tele sh o r0 :
   = b2n (in_table (shape_step sh o) r0).
 Proof.
   intros W. change (in_table sh r0) with (rowq tabb sh r0); change (in_table (shape_step sh o) r0) with (rowq tabb (shape_step sh o) r0).
-  destruct o as [|r|r| |n| |n|ow tm g cb]; cbn [rows_joined shape_step].
+  destruct o as [|r|r| |n| |n|ow tm g cb|r']; cbn [rows_joined shape_step].
   - rw_push sh (mkSrow (Some 0) false). norm.
     destruct (Nat.eqb_spec r0 (length (sh_rows sh))) as [->|_]; [|reflexivity].
     rewrite rowq_none by (apply nth_error_None; lia). reflexivity.
@@ -215,6 +216,7 @@ Proof.
     destruct (Nat.eqb_spec r0 (length (sh_rows sh))) as [->|_]; [|reflexivity].
     rewrite rowq_none by (apply nth_error_None; lia). reflexivity.
   - reflexivity.
+  - reflexivity.
 Qed.
 
 Lemma cjoined_tele sh o r0 c0 :
@@ -224,7 +226,7 @@ Lemma cjoined_tele sh o r0 c0 :
   = b2n (has_cell (shape_step sh o) r0 c0 && in_table (shape_step sh o) r0).
 Proof.
   intros W. rewrite !has_cell_rowq. change (in_table sh r0) with (rowq tabb sh r0); change (in_table (shape_step sh o) r0) with (rowq tabb (shape_step sh o) r0).
-  destruct o as [|r|r| |n| |n|ow tm g cb]; cbn [cells_joined shape_step].
+  destruct o as [|r|r| |n| |n|ow tm g cb|r']; cbn [cells_joined shape_step].
   - rw_push sh (mkSrow (Some 0) false). norm.
     destruct (Nat.eqb_spec r0 (length (sh_rows sh))) as [->|_]; [|reflexivity].
     rewrite !rowq_none by (apply nth_error_None; lia). bool_lia.
@@ -251,6 +253,7 @@ Proof.
   - rewrite sum_pairs_hit. rw_push sh (mkSrow (Some n) true). norm.
     destruct (Nat.eqb_spec r0 (length (sh_rows sh))) as [->|_]; norm; [|reflexivity].
     rewrite !rowq_none by (apply nth_error_None; lia). bool_lia.
+  - reflexivity.
   - reflexivity.
 Qed.
 
